@@ -1,9 +1,266 @@
 import KG.Base.Json
-/-! Driver entry points for property C08 (filled in by the C08 model). -/
-namespace KG.Driver.C08
-open Lean
+import KG.Spec.GlobalCount
+/-!
+Driver entry points for property C08 (global count strategy of the limiter server).
 
-/-- `handle method args`: `none` when the method is unknown. -/
-def handle (_m : String) (_a : Json) : Option (Except String Json) := none
+* `C08.run {ops, impl}`     — runs the store model over an op list; with `impl` (the real code's reply and
+                              store snapshot after every op) it also evaluates the judge of
+                              `KG.Spec.GlobalCount` on the implementation's observations.
+* `C08.bucket {qps, burst, calls, impl}` — scripted `AllowN(now, n)` calls on one limiter: model decisions,
+                              and the window judge `Σ grants ≤ burst + qps·T` on the implementation's decisions.
+* `C08.conc {prefix, threads, replies, final}` — is the observed outcome of concurrently issued calls
+                              (per-thread replies and the state at quiescence) the outcome of SOME
+                              interleaving of the atomic steps?
+-/
+namespace KG.Driver.C08
+open Lean KG KG.Model.GlobalCount KG.Spec.GlobalCount
+
+def errStr : Err → String
+  | .none => ""
+  | .requestIDTooOld => "RequestIDTooOld"
+
+def acqErrStr : AcqErr → String
+  | .none => ""
+  | .notFound => "NotFound"
+  | .negativeTokens => "NegativeTokens"
+  | .requestIDTooOld => "RequestIDTooOld"
+
+def encReply (r : Reply) : Json :=
+  J.obj [("accept", J.bool r.accept), ("latest", J.int r.latest), ("err", Json.str (errStr r.err))]
+
+def encAcq (r : AcqResult) : Json :=
+  J.obj [("accept", J.bool r.accept), ("limit", J.int r.limit), ("err", Json.str (acqErrStr r.err))]
+
+def encStates (l : States) : Json :=
+  Json.arr (l.map fun (k, v) => Json.arr #[J.hex k, J.int v.count, J.int v.requestId]).toArray
+
+def encFC (name : Str) : FC → Json
+  | .mif g => J.obj [("name", J.hex name), ("t", Json.str "mif"), ("max", J.int g.max), ("count", J.int g.count),
+                     ("states", encStates g.states)]
+  | .tb b => J.obj [("name", J.hex name), ("t", Json.str "tb"), ("qps", J.int b.qps), ("burst", J.int b.burst)]
+
+def encFCs (f : FCs) : Json := Json.arr (f.map fun (n, fc) => encFC n fc).toArray
+
+/-- canonical order (by key bytes) for comparing final states of different interleavings -/
+def sortStates (l : States) : States := l.mergeSort fun a b => !(decide (b.1.toHex < a.1.toHex))
+
+def sortFCs (f : FCs) : FCs :=
+  (f.map fun (n, fc) => match fc with
+    | .mif g => (n, FC.mif { g with states := sortStates g.states })
+    | .tb b => (n, FC.tb b)).mergeSort fun a b => !(decide (b.1.toHex < a.1.toHex))
+
+def decStates (a : Array Json) : Except String States :=
+  a.toList.mapM fun e => do
+    let t ← e.getArr?
+    match t.toList with
+    | [k, c, r] => pure ((← J.asHex k), (⟨← c.getInt?, ← r.getInt?⟩ : Inst))
+    | _ => throw "bad state triple"
+
+def decFC (j : Json) : Except String (Str × FC) := do
+  let name ← J.getHex j "name"
+  match ← J.getStr j "t" with
+  | "mif" =>
+    pure (name, .mif { max := ← J.getInt j "max", count := ← J.getInt j "count", states := ← decStates (← J.getArr j "states") })
+  | "tb" => pure (name, .tb { qps := ← J.getInt j "qps", burst := ← J.getInt j "burst", tokens := 0, last := none })
+  | t => throw s!"bad fc type {t}"
+
+def decFCs (j : Json) : Except String FCs := do (← j.getArr?).toList.mapM decFC
+
+def decSchema (j : Json) : Except String Schema := do
+  let name ← J.getHex j "name"
+  let gmif ← match J.optObj j "mif" with
+    | none => pure none
+    | some v => do pure (some (← v.getInt?))
+  let gtb ← match J.optObj j "tb" with
+    | none => pure none
+    | some v => do
+      match (← v.getArr?).toList with
+      | [q, b] => pure (some ((← q.getInt?), (← b.getInt?)))
+      | _ => throw "bad tb"
+  pure { name := name, gmif := gmif, gtb := gtb }
+
+inductive SOp where
+  | sync (spec : List Schema)
+  | set (fc inst : Str) (rid cur : Int)
+  | resize (fc : Str) (n burst : Int)
+  | acq (inst : Str) (rid : Int) (reqs : List (Str × Int)) (nows : List Int)
+  | del (inst : Str)
+
+def decOp (j : Json) : Except String SOp := do
+  match ← J.getStr j "k" with
+  | "sync" => pure (.sync (← (← J.getArr j "schemas").toList.mapM decSchema))
+  | "set" => pure (.set (← J.getHex j "fc") (← J.getHex j "inst") (← J.getInt j "rid") (← J.getInt j "cur"))
+  | "resize" => pure (.resize (← J.getHex j "fc") (← J.getInt j "n") (← J.getInt j "burst"))
+  | "acq" =>
+    let reqs ← (← J.getArr j "reqs").toList.mapM fun r => do pure ((← J.getHex r "fc"), (← J.getInt r "tokens"))
+    let nows ← J.getIntList j "nows"
+    if nows.length ≠ 4 then throw "acq needs the clock readings of the four tries"
+    pure (.acq (← J.getHex j "inst") (← J.getInt j "rid") reqs nows)
+  | "del" => pure (.del (← J.getHex j "inst"))
+  | k => throw s!"bad op {k}"
+
+/-- one op on the model store: new store and the reply as JSON -/
+def stepStore (st : Store) : SOp → Store × Json
+  | .sync spec => (sync st spec, Json.null)
+  | .set fc inst rid cur =>
+    match findFC fc st.fcs with
+    | some (.mif g) =>
+      let (g', r) := setState g inst rid cur
+      ({ st with fcs := putFC fc (.mif g') st.fcs }, encReply r)
+    | some (.tb _) => (st, encReply ⟨false, -1, .none⟩)   -- globalTokenBucket.SetState
+    | none => (st, Json.str "NotFound")
+  | .resize fc n burst =>
+    match findFC fc st.fcs with
+    | some (.mif g) =>
+      let (g', r) := resize g n
+      ({ st with fcs := putFC fc (.mif g') st.fcs }, J.bool r)
+    | some (.tb b) =>
+      let (b', r) := bucketResize b n burst
+      ({ st with fcs := putFC fc (.tb b') st.fcs }, J.bool r)
+    | none => (st, Json.str "NotFound")
+  | .acq inst rid reqs nows =>
+    let (st', rs) := doAcquire st inst rid nows reqs
+    (st', Json.arr (rs.map encAcq).toArray)
+  | .del inst => (deleteInstanceState st inst, Json.null)
+
+def instancesOf (a b : G) : List Str := (keys a.states ++ keys b.states).eraseDups
+
+def decReply (j : Json) : Except String Reply := do
+  let e ← J.getStr j "err"
+  pure ⟨← J.getBool j "accept", ← J.getInt j "latest", if e = "RequestIDTooOld" then .requestIDTooOld else .none⟩
+
+def decAcq (j : Json) : Except String AcqResult := do
+  let e ← J.getStr j "err"
+  let err : AcqErr := match e with
+    | "" => .none
+    | "NotFound" => .notFound
+    | "NegativeTokens" => .negativeTokens
+    | "RequestIDTooOld" => .requestIDTooOld
+    | _ => .notFound
+  pure ⟨← J.getBool j "accept", ← J.getInt j "limit", err⟩
+
+def tag (p : String) (l : List String) : List String := l.map (p ++ ·)
+
+/-- the judge on the implementation's observations of one op -/
+def judgeOp (op : SOp) (reply : Json) (before after : FCs) : Except String (List String) := do
+  match op with
+  | .set fc inst rid cur =>
+    match findFC fc before, findFC fc after with
+    | some (.mif b), some (.mif a) =>
+      let rep ← decReply reply
+      pure (violations (instancesOf a b) b inst rid cur rep a)
+    | _, _ => pure []
+  | .resize fc n _ =>
+    match findFC fc before, findFC fc after with
+    | some (.mif b), some (.mif a) => pure (resizeViolations b n a)
+    | _, _ => pure []
+  | .del inst =>
+    pure <| before.flatMap fun (n, fc) =>
+      match fc, findFC n after with
+      | .mif b, some (.mif a) => violations (instancesOf a b) b inst (-1) (-1) ⟨false, -1, .none⟩ a
+      | _, _ => []
+  | .acq inst rid reqs _ =>
+    let rs ← (← reply.getArr?).toList.mapM decAcq
+    if rs.length ≠ reqs.length then pure ["acquire-result-count"] else
+    pure <| (reqs.zip rs).flatMap fun ((fc, tokens), r) =>
+      let neg := if tokens < 0 ∧ (findFC fc before).isSome then
+          (if r.err = .negativeTokens ∧ r.accept = false ∧ r.limit = 0 then [] else ["negative-ask-not-refused"]) else []
+      let once := (reqs.filter fun q => q.1 = fc).length = 1
+      neg ++
+      match findFC fc before, findFC fc after with
+      | some (.tb _), some (.tb _) => grantViolations tokens r
+      | some (.mif b), some (.mif a) =>
+        if tokens < 0 then (if a = b then [] else ["negative-ask-changes-state"])
+        else if !once then []
+        else
+          let rep : Reply := match r.err with
+            | .requestIDTooOld => ⟨false, tokens, .requestIDTooOld⟩
+            | _ => if r.accept then ⟨true, r.limit, .none⟩ else ⟨false, r.limit, .none⟩
+          (if r.accept ∧ r.limit ≠ tokens then ["accept-limit-not-ask"] else []) ++
+          violations (instancesOf a b) b inst rid tokens rep a
+      | _, _ => []
+  | .sync spec =>
+    pure <| spec.flatMap fun s =>
+      match s.gmif, findFC s.name before, findFC s.name after with
+      | some m, some (.mif b), some (.mif a) => resizeViolations b m a
+      | _, _, _ => []
+
+def doRun (a : Json) : Except String Json := do
+  let ops ← (← J.getArr a "ops").toList.mapM decOp
+  -- model
+  let (_, outs) := ops.foldl (fun (acc : Store × List Json) op =>
+    let (st', r) := stepStore acc.1 op
+    (st', acc.2 ++ [J.obj [("reply", r), ("snap", encFCs st'.fcs)]])) (Store.empty, [])
+  -- judge on the implementation's observations
+  let judge ← match J.optObj a "impl" with
+    | none => pure []
+    | some im => do
+      let obs ← im.getArr?
+      if obs.size ≠ ops.length then throw "impl observations do not match ops"
+      let rec go (ops : List SOp) (obs : List Json) (before : FCs) (i : Nat) : Except String (List String) :=
+        match ops, obs with
+        | op :: ops', o :: obs' => do
+          let after ← decFCs (← J.getObj o "snap")
+          let v ← judgeOp op ((o.getObjVal? "reply").toOption.getD Json.null) before after
+          let rest ← go ops' obs' after (i + 1)
+          pure (tag s!"{i}:" v ++ rest)
+        | _, _ => pure []
+      go ops obs.toList [] 0
+  pure <| J.obj [("model", Json.arr outs.toArray), ("judge", Json.arr (judge.map Json.str).toArray)]
+
+/-- scripted AllowN calls on one limiter -/
+def doBucket (a : Json) : Except String Json := do
+  let qps ← J.getInt a "qps"
+  let burst ← J.getInt a "burst"
+  if qps ≤ 0 then throw "qps must be positive (validation rejects other values; not modelled)"
+  let calls ← (← J.getArr a "calls").toList.mapM fun c => do pure ((← J.getInt c "now"), (← J.getInt c "n"))
+  let (_, oks) := calls.foldl (fun (acc : Bucket × List Bool) (c : Int × Int) =>
+    let (b', ok) := allowN acc.1 c.1 c.2
+    (b', acc.2 ++ [ok])) (Bucket.init qps burst, [])
+  let judge ← match J.optObj a "impl" with
+    | none => pure Json.null
+    | some im => do
+      let ioks ← (← im.getArr?).toList.mapM (·.getBool?)
+      let events := (calls.zip ioks).map fun ((t, n), ok) => (t, if ok then n else 0)
+      pure (J.bool (windowsOk qps burst events))
+  pure <| J.obj [("ok", Json.arr (oks.map J.bool).toArray), ("windows", judge)]
+
+/-- all interleavings of the threads' op lists (each a list of `(thread, op)`), fuel = total length -/
+def interleavings : Nat → List (List SOp) → List (List (Nat × SOp))
+  | 0, _ => [[]]
+  | fuel + 1, threads =>
+    if threads.all (·.isEmpty) then [[]]
+    else
+      (List.range threads.length).flatMap fun t =>
+        match threads[t]? with
+        | some (op :: rest) => (interleavings fuel (threads.set t rest)).map fun l => (t, op) :: l
+        | _ => []
+
+def doConc (a : Json) : Except String Json := do
+  let pre ← (← J.getArr a "prefix").toList.mapM decOp
+  let threads ← (← J.getArr a "threads").toList.mapM fun t => do (← t.getArr?).toList.mapM decOp
+  let replies ← (← J.getArr a "replies").toList.mapM fun t => do pure (← t.getArr?).toList
+  let final ← J.getObj a "final"
+  let st0 := pre.foldl (fun st op => (stepStore st op).1) Store.empty
+  let total := (threads.map (·.length)).sum
+  let canon (f : FCs) : String := (encFCs (sortFCs f)).compress
+  let want := canon (← decFCs final)
+  let wantReplies := (Json.arr (replies.map fun l => Json.arr l.toArray).toArray).compress
+  let outcomes := (interleavings total threads).map fun sched =>
+    let (st, outs) := sched.foldl (fun (acc : Store × List (Nat × Json)) (to : Nat × SOp) =>
+      let (st', r) := stepStore acc.1 to.2
+      (st', acc.2 ++ [(to.1, r)])) (st0, [])
+    let per := (List.range threads.length).map fun t => (outs.filter (·.1 = t)).map (·.2)
+    (canon st.fcs, (Json.arr (per.map fun l => Json.arr l.toArray).toArray).compress)
+  let ok := outcomes.any fun (s, r) => s = want ∧ r = wantReplies
+  pure <| J.obj [("linearizable", J.bool ok), ("schedules", J.nat outcomes.length),
+    ("example", match outcomes with | (s, r) :: _ => Json.arr #[Json.str s, Json.str r] | [] => Json.null)]
+
+def handle (m : String) (a : Json) : Option (Except String Json) :=
+  match m with
+  | "run" => some (doRun a)
+  | "bucket" => some (doBucket a)
+  | "conc" => some (doConc a)
+  | _ => none
 
 end KG.Driver.C08
